@@ -17,7 +17,7 @@ ID = "C03"
 LEVEL = "exploration"
 ENGINE = "libfuzzer+world"
 WORLDS = [(1, "san"), (3, "san")]
-BUDGET = {"quick": dict(cases=500, fuzz_s=12, fuzz_caps=(1, 3)), "thorough": dict(cases=15000, fuzz_s=360, fuzz_caps=(1, 2, 3, 8))}
+BUDGET = {"quick": dict(cases=500, fuzz_s=120, fuzz_runs=15000, fuzz_caps=(1, 3)), "thorough": dict(cases=15000, fuzz_s=360, fuzz_caps=(1, 2, 3, 8))}
 MIN_NONTRIVIAL = {"quick": 3000, "thorough": 100000}
 BLOB = (300, 1200)
 RULE = ("(1) libFuzzer campaign, one process per core, ASan+UBSan build: the input bytes are decoded into a complete case - shared/separate buffers, command "
@@ -153,7 +153,7 @@ def prebuild(tier):
 
 def campaign(tier, seed, nworkers):
     conf = BUDGET[tier]
-    return fuzz.campaign(ID, "c03", conf["fuzz_caps"], conf["fuzz_s"], seed, nworkers)
+    return fuzz.campaign(ID, "c03", conf["fuzz_caps"], conf["fuzz_s"], seed, nworkers, runs=conf.get("fuzz_runs"))
 
 
 replay_artifact = fuzz.replay_artifact
